@@ -38,7 +38,10 @@ func isSliceType(t ast.Expr) bool {
 	return ok && a.Len == nil
 }
 
-type param struct{ name, canon string }
+type param struct {
+	obj   *ast.Object
+	canon string
+}
 
 func stringParams(fd *ast.FuncDecl, e *env) []param {
 	var res []param
@@ -47,8 +50,8 @@ func stringParams(fd *ast.FuncDecl, e *env) []param {
 			continue
 		}
 		for _, n := range f.Names {
-			if n.Name != "_" {
-				res = append(res, param{n.Name, e.fixed[n.Name]})
+			if n.Name != "_" && n.Obj != nil {
+				res = append(res, param{n.Obj, e.fixed[n.Obj]})
 			}
 		}
 	}
@@ -64,40 +67,40 @@ func hasErrorResult(fd *ast.FuncDecl) bool {
 }
 
 // `if P, E = varutil.ReduceAbsPath(P); E != nil { return ... }` -> (P, does the failure reach the caller)
-func reduceGuard(fd *ast.FuncDecl, s ast.Stmt) (string, bool, bool) {
+func reduceGuard(fd *ast.FuncDecl, s ast.Stmt) (*ast.Object, bool, bool) {
 	is, ok := s.(*ast.IfStmt)
 	if !ok || is.Else != nil || is.Init == nil || len(is.Body.List) != 1 {
-		return "", false, false
+		return nil, false, false
 	}
 	as, ok := is.Init.(*ast.AssignStmt)
 	if !ok || as.Tok != token.ASSIGN || len(as.Lhs) != 2 || len(as.Rhs) != 1 {
-		return "", false, false
+		return nil, false, false
 	}
 	call, ok := as.Rhs[0].(*ast.CallExpr)
 	if !ok || len(call.Args) != 1 {
-		return "", false, false
+		return nil, false, false
 	}
 	if pkg, name := callName(call); pkg != "varutil" || name != "ReduceAbsPath" {
-		return "", false, false
+		return nil, false, false
 	}
 	p, ok1 := as.Lhs[0].(*ast.Ident)
 	e, ok2 := as.Lhs[1].(*ast.Ident)
 	a, ok3 := call.Args[0].(*ast.Ident)
-	if !ok1 || !ok2 || !ok3 || p.Name != a.Name {
-		return "", false, false
+	if !ok1 || !ok2 || !ok3 || p.Obj == nil || p.Obj != a.Obj {
+		return nil, false, false
 	}
 	be, ok := is.Cond.(*ast.BinaryExpr)
 	if !ok || be.Op != token.NEQ {
-		return "", false, false
+		return nil, false, false
 	}
 	cx, ok1 := be.X.(*ast.Ident)
 	cy, ok2 := be.Y.(*ast.Ident)
-	if !ok1 || !ok2 || cx.Name != e.Name || cy.Name != "nil" {
-		return "", false, false
+	if !ok1 || !ok2 || cx.Obj == nil || cx.Obj != e.Obj || cy.Name != "nil" {
+		return nil, false, false
 	}
 	ret, ok := is.Body.List[0].(*ast.ReturnStmt)
 	if !ok {
-		return "", false, false
+		return nil, false, false
 	}
 	passes := false
 	if hasErrorResult(fd) {
@@ -105,12 +108,12 @@ func reduceGuard(fd *ast.FuncDecl, s ast.Stmt) (string, bool, bool) {
 			// bare return: the error travels when E is the named error result
 			for _, f := range fd.Type.Results.List {
 				for _, n := range f.Names {
-					if n.Name == e.Name && isErrorType(f.Type) {
+					if n.Obj == e.Obj && isErrorType(f.Type) {
 						passes = true
 					}
 				}
 			}
-		} else if id, ok := ret.Results[len(ret.Results)-1].(*ast.Ident); ok && id.Name == e.Name {
+		} else if id, ok := ret.Results[len(ret.Results)-1].(*ast.Ident); ok && id.Obj == e.Obj {
 			passes = true
 		}
 	} else if len(ret.Results) == 1 {
@@ -118,19 +121,19 @@ func reduceGuard(fd *ast.FuncDecl, s ast.Stmt) (string, bool, bool) {
 			passes = true
 		}
 	}
-	return p.Name, true, passes
+	return p.Obj, true, passes
 }
 
 // where an identifier is mentioned inside a node: the functions it is handed to as a direct argument,
 // "?" for every other mention
-func mentions(n ast.Node, name string, pr *printer) []string {
+func mentions(n ast.Node, name *ast.Object, pr *printer) []string {
 	var res []string
 	direct := map[*ast.Ident]bool{}
 	ast.Inspect(n, func(x ast.Node) bool {
 		switch v := x.(type) {
 		case *ast.CallExpr:
 			for _, a := range v.Args {
-				if id, ok := a.(*ast.Ident); ok && id.Name == name {
+				if id, ok := a.(*ast.Ident); ok && id.Obj == name {
 					direct[id] = true
 					res = append(res, pr.expr(v.Fun))
 				}
@@ -138,7 +141,7 @@ func mentions(n ast.Node, name string, pr *printer) []string {
 		case *ast.SelectorExpr:
 			// the selected field is not a mention
 			ast.Inspect(v.X, func(y ast.Node) bool {
-				if id, ok := y.(*ast.Ident); ok && id.Name == name && !direct[id] {
+				if id, ok := y.(*ast.Ident); ok && id.Obj == name && !direct[id] {
 					res = append(res, "?")
 				}
 				return true
@@ -150,7 +153,7 @@ func mentions(n ast.Node, name string, pr *printer) []string {
 				return false
 			}
 		case *ast.Ident:
-			if v.Name == name && !direct[v] {
+			if v.Obj == name && !direct[v] {
 				res = append(res, "?")
 			}
 		}
@@ -159,23 +162,23 @@ func mentions(n ast.Node, name string, pr *printer) []string {
 	return res
 }
 
-func assigns(n ast.Node, name string) bool {
+func assigns(n ast.Node, name *ast.Object) bool {
 	found := false
 	ast.Inspect(n, func(x ast.Node) bool {
 		switch v := x.(type) {
 		case *ast.AssignStmt:
 			for _, l := range v.Lhs {
-				if id, ok := l.(*ast.Ident); ok && id.Name == name {
+				if id, ok := l.(*ast.Ident); ok && id.Obj == name {
 					found = true
 				}
 			}
 		case *ast.IncDecStmt:
-			if id, ok := v.X.(*ast.Ident); ok && id.Name == name {
+			if id, ok := v.X.(*ast.Ident); ok && id.Obj == name {
 				found = true
 			}
 		case *ast.UnaryExpr:
 			if v.Op == token.AND {
-				if id, ok := v.X.(*ast.Ident); ok && id.Name == name {
+				if id, ok := v.X.(*ast.Ident); ok && id.Obj == name {
 					found = true
 				}
 			}
@@ -206,9 +209,9 @@ func discipline(fd *ast.FuncDecl) (reduce string, tail []string) {
 		reduced, noerr, reassigned bool
 		before, handed             []string
 	}
-	state := map[string]*st{}
+	state := map[*ast.Object]*st{}
 	for _, p := range ps {
-		state[p.name] = &st{}
+		state[p.obj] = &st{}
 	}
 	var rest []ast.Stmt
 	for _, s := range fd.Body.List {
@@ -224,20 +227,20 @@ func discipline(fd *ast.FuncDecl) (reduce string, tail []string) {
 		}
 		rest = append(rest, s)
 		for _, p := range ps {
-			t := state[p.name]
+			t := state[p.obj]
 			if t.reduced {
-				if assigns(s, p.name) {
+				if assigns(s, p.obj) {
 					t.reassigned = true
 				}
 			} else {
-				t.handed = append(t.handed, mentions(s, p.name, pr)...)
+				t.handed = append(t.handed, mentions(s, p.obj, pr)...)
 			}
 		}
 	}
 	// mentions collected while a parameter was not yet reduced: "before" if it is reduced later
 	var toks []string
 	for _, p := range ps {
-		t := state[p.name]
+		t := state[p.obj]
 		tok := p.canon
 		if t.reduced {
 			var notes []string
@@ -272,7 +275,7 @@ var sliceFields = map[string]bool{"data": true, "nodes": true}
 var sliceCalls = map[string]bool{"getData": true, "getNodes": true, "setData": true}
 var sliceBuiltins = map[string]bool{"make": true, "append": true, "copy": true}
 
-type flowState struct{ tracked map[string]bool }
+type flowState struct{ tracked map[*ast.Object]bool }
 
 func (f *flowState) relevant(n ast.Node) bool {
 	if n == nil {
@@ -287,7 +290,7 @@ func (f *flowState) relevant(n ast.Node) bool {
 		case *ast.FuncLit:
 			return false
 		case *ast.Ident:
-			if f.tracked[v.Name] {
+			if v.Obj != nil && f.tracked[v.Obj] {
 				found = true
 			}
 		case *ast.SelectorExpr:
@@ -316,7 +319,7 @@ func (f *flowState) relevant(n ast.Node) bool {
 func (f *flowState) yieldsSlice(x ast.Expr) bool {
 	switch v := x.(type) {
 	case *ast.Ident:
-		return f.tracked[v.Name]
+		return v.Obj != nil && f.tracked[v.Obj]
 	case *ast.SelectorExpr:
 		return sliceFields[v.Sel.Name]
 	case *ast.SliceExpr:
@@ -338,11 +341,13 @@ func (f *flowState) yieldsSlice(x ast.Expr) bool {
 }
 
 func flowBody(fd *ast.FuncDecl) []string {
-	f := &flowState{tracked: map[string]bool{}}
+	f := &flowState{tracked: map[*ast.Object]bool{}}
 	for _, fl := range fd.Type.Params.List {
 		if isSliceType(fl.Type) {
 			for _, n := range fl.Names {
-				f.tracked[n.Name] = true
+				if n.Obj != nil {
+					f.tracked[n.Obj] = true
+				}
 			}
 		}
 	}
@@ -350,8 +355,8 @@ func flowBody(fd *ast.FuncDecl) []string {
 	p.keep = func(s ast.Stmt) bool { return f.relevant(s) }
 	p.cond = func(x ast.Expr) bool { return f.relevant(x) }
 	p.onDef = func(lhs, rhs ast.Expr) {
-		if id, ok := lhs.(*ast.Ident); ok && id.Name != "_" && f.yieldsSlice(rhs) {
-			f.tracked[id.Name] = true
+		if id, ok := lhs.(*ast.Ident); ok && id.Name != "_" && id.Obj != nil && f.yieldsSlice(rhs) {
+			f.tracked[id.Obj] = true
 		}
 	}
 	// the tracking must know an assignment before `keep` judges the statement it occurs in
